@@ -85,10 +85,11 @@ func cmdVerify(args []string) {
 	verbose := fs.Bool("v", false, "list every obligation")
 	nocache := fs.Bool("nocache", false, "ignore cache")
 	houdini := fs.Bool("houdini", true, "infer loop invariants from candidates")
+	split := fs.Bool("split", false, "for failing conjunctive goals, report which conjuncts fail")
 	fs.Parse(args)
 	useCache = !*nocache
 	t0 := time.Now()
-	ctx, err := loadProgram("/repo", strings.Split(*pkgs, ","))
+	ctx, err := loadProgram(repoDir(), strings.Split(*pkgs, ","))
 	if err != nil {
 		fmt.Fprintln(os.Stderr, "load:", err)
 		os.Exit(2)
@@ -123,6 +124,9 @@ func cmdVerify(args []string) {
 			} else {
 				nBad++
 				fmt.Printf("  FAIL %-8s %s  [%s %s %.2fs] %s\n", o.Kind, o.Name, o.Status, o.Solver, o.Secs, o.PosStr)
+				if *split {
+					splitReport(r, i)
+				}
 				if *dump != "" {
 					os.MkdirAll(*dump, 0o755)
 					os.WriteFile(fmt.Sprintf("%s/%s-%d.smt2", *dump, symSafe(shortKey(r.Key)), i), []byte(singleScript(r, i, true)), 0o644)
@@ -188,4 +192,57 @@ func verifyOne(ctx *Ctx, fn *ssa.Function, sels []*selector, timeoutMs int, houd
 	}
 	discharge(res, selected, timeoutMs)
 	return res
+}
+
+// splitReport re-checks the conjuncts of a failing goal one by one (diagnostic only).
+func splitReport(r *FuncResult, i int) {
+	o := r.Obls[i]
+	root := parseSx(o.Goal)
+	reach := "true"
+	body := root
+	if root.isApp("=>") && len(root.kids) == 3 {
+		reach = root.kids[1].String()
+		body = root.kids[2]
+	}
+	var conj []*sx
+	var flat func(n *sx)
+	flat = func(n *sx) {
+		if n.isApp("and") {
+			for _, k := range n.kids[1:] {
+				flat(k)
+			}
+			return
+		}
+		if n.isApp("=>") && len(n.kids) == 3 && n.kids[2].isApp("and") {
+			for _, k := range n.kids[2].kids[1:] {
+				flat(&sx{kids: []*sx{{atom: "=>"}, n.kids[1], k}})
+			}
+			return
+		}
+		conj = append(conj, n)
+	}
+	flat(body)
+	if len(conj) < 2 {
+		return
+	}
+	saved := o.Goal
+	for _, c := range conj {
+		o.Goal = imp(reach, c.String())
+		script := singleScript(r, i, false)
+		f := tmpFile("split", script)
+		out, _ := runSolver(contextBG(), solvers[0], f, 5000, false)
+		os.Remove(f)
+		first := strings.TrimSpace(strings.SplitN(out, "\n", 2)[0])
+		if first != "unsat" {
+			fmt.Printf("        conjunct %s: %s\n", first, truncate(c.String(), 300))
+		}
+	}
+	o.Goal = saved
+}
+
+func repoDir() string {
+	if d := os.Getenv("GOVC_REPO"); d != "" {
+		return d
+	}
+	return "/repo"
 }
